@@ -1,8 +1,207 @@
+import Martian.PostProcess
+import Gen.Facts
 import Driver.Util
 
-/-! Line-protocol handler for property C13 (stub: replaced when the model exists). -/
-namespace Driver.C13
+/-! Line-protocol handler for property C13.
 
-def handle (_op : String) (_args : List String) : Option String := none
+`C13.run <mode> <dimAware> <ps> <outsPath> <params> <value> <fs>`
+* mode     `p` = one parameter through `moveOut` (value = its JSON value),
+           `o` = `processStructOuts` (value = the `_outs` object),
+           `a`/`m` = `postProcess` of a top-level call mapped over an array / a typed map
+* dimAware `g` = the regenerated fact, `t`/`f` = forced
+* ps, outsPath: hex of the path string
+* params   `<n> {<hex id> <hex outName> <Ty>}`
+* Ty       `s` | `f <hex ext>` | `a <extraDims> <Ty>` | `m <Ty>` | `t <n> {<hex id> <hex outName> <Ty>}`
+* value    `n` | `l <hex>` | `q <hex>` | `A <n> {J}` | `O <n> {<hex key> J}`
+* fs       `<n> {<hex path> (F<content>|D|La<hex path>|Lr<hex rel>)}`
+Reply: `<hex of the rewritten JSON text> <TAB> <entries path=kind joined by ,>`.
+Tokens are separated by single spaces.
+-/
+namespace Driver.C13
+open Martian.PostProcess Driver
+
+def hexStr (s : String) : Option String := do
+  let b ← bytesOfHex s
+  String.fromUTF8? (ByteArray.mk b.toArray)
+
+def strHex (s : String) : String := hexOfBytes s.toUTF8.toList
+
+abbrev P := StateT (List String) Option
+
+def tok : P String := do
+  match (← get) with
+  | [] => failure
+  | t :: r => set r; pure t
+
+def pStr : P String := do
+  let t ← tok
+  match hexStr t with
+  | some s => pure s
+  | none => failure
+
+def pNat : P Nat := do
+  let t ← tok
+  match t.toNat? with
+  | some n => pure n
+  | none => failure
+
+partial def pTy : P Ty := do
+  let t ← tok
+  match t with
+  | "s" => pure .scalar
+  | "f" => do let e ← pStr; pure (.file e)
+  | "a" => do let k ← pNat; let e ← pTy; pure (.arr e k)
+  | "m" => do let e ← pTy; pure (.tmap e)
+  | "t" => do
+    let n ← pNat
+    let mut ms := []
+    for _ in [0:n] do
+      let id ← pStr; let on ← pStr; let ty ← pTy
+      ms := (id, on, ty) :: ms
+    pure (.struct ms.reverse)
+  | _ => failure
+
+def pParams : P (List (String × String × Ty)) := do
+  let n ← pNat
+  let mut ms := []
+  for _ in [0:n] do
+    let id ← pStr; let on ← pStr; let ty ← pTy
+    ms := (id, on, ty) :: ms
+  pure ms.reverse
+
+partial def pJ : P J := do
+  let t ← tok
+  match t with
+  | "n" => pure .null
+  | "l" => do let s ← pStr; pure (.lit s)
+  | "q" => do let s ← pStr; pure (.str s)
+  | "A" => do
+    let n ← pNat
+    let mut xs := []
+    for _ in [0:n] do
+      let x ← pJ
+      xs := x :: xs
+    pure (.arr xs.reverse)
+  | "O" => do
+    let n ← pNat
+    let mut kvs := []
+    for _ in [0:n] do
+      let k ← pStr; let v ← pJ
+      kvs := (k, v) :: kvs
+    pure (.obj kvs.reverse)
+  | _ => failure
+
+def pathOf (s : String) : Path := (parsePath s).getD []
+
+def pEntry (t : String) : Option Entry :=
+  if t == "D" then some .dir
+  else if t.startsWith "F" then (t.drop 1).toString.toNat?.map Entry.file
+  else if t.startsWith "La" then (hexStr (t.drop 2).toString).map fun s => .link (.abs (pathOf s))
+  else if t.startsWith "Lr" then (hexStr (t.drop 2).toString).map fun s => .link (.rel (s.splitOn "/"))
+  else none
+
+def pFS : P FS := do
+  let n ← pNat
+  let mut ents : List (Path × Entry) := []
+  for _ in [0:n] do
+    let p ← pStr
+    let t ← tok
+    match pEntry t with
+    | some e => ents := (pathOf p, e) :: ents
+    | none => failure
+  let es := ents.reverse
+  pure { get := fun q => (es.find? (fun pe => pe.1 == q)).map (·.2), dom := es.map (·.1) }
+
+def runP {α} (p : P α) (s : String) : Option α :=
+  match p.run (s.splitOn " ") with
+  | some (a, []) => some a
+  | _ => none
+
+/-! rendering -/
+
+def hex4 (n : Nat) : String :=
+  String.ofList [hexDigit (n / 4096 % 16), hexDigit (n / 256 % 16), hexDigit (n / 16 % 16), hexDigit (n % 16)]
+
+/-- `json.Marshal` of a string (HTML-escaping on, as Go's default) -/
+def jsonStr (s : String) : String :=
+  "\"" ++ String.join (s.toList.map fun c =>
+    if c = '"' then "\\\"" else if c = '\\' then "\\\\"
+    else if c = '\n' then "\\n" else if c = '\r' then "\\r" else if c = '\t' then "\\t"
+    else if c.toNat < 0x20 ∨ c = '<' ∨ c = '>' ∨ c = '&' ∨ c.toNat = 0x2028 ∨ c.toNat = 0x2029 then "\\u" ++ hex4 c.toNat
+    else String.singleton c) ++ "\""
+
+def renderTok : Tok → String
+  | .lbrace => "{" | .rbrace => "}" | .lbrack => "[" | .rbrack => "]"
+  | .comma => "," | .colon => ":" | .null => "null"
+  | .lit s => s | .str s => jsonStr s
+
+def renderJ (j : J) : String := String.join ((emit j).map renderTok)
+
+def relStr (cs : List String) : String := "/".intercalate cs
+
+def renderEntry : Entry → String
+  | .file c => "F" ++ toString c
+  | .dir => "D"
+  | .link (.abs p) => "La" ++ strHex (renderPath p)
+  | .link (.rel cs) => "Lr" ++ strHex (relStr cs)
+
+def renderFS (fs : FS) : String :=
+  let ps := fs.dom.eraseDups.filter (· ≠ [])
+  let ents := ps.filterMap fun p => (fs.get p).map fun e => strHex (renderPath p) ++ "=" ++ renderEntry e
+  if ents.isEmpty then "." else ",".intercalate ents
+
+/-- `Fork.postProcess` for a top-level call mapped over an array: `_outs` is an
+array of records, record `i` goes to `outs/<i>` (plain decimal). -/
+def postArray (da : Bool) (ps : Path) (params : List (String × String × Ty)) (outs : Path) :
+    Nat → List J → FS → List J × FS
+  | _, [], fs => ([], fs)
+  | i, x :: xs, fs =>
+    let r := processStructOuts da ps params x (outs ++ [toString i]) fs
+    let rs := postArray da ps params outs (i + 1) xs r.2
+    (r.1 :: rs.1, rs.2)
+
+/-- … over a typed map: record `k` goes to `outs/<k>`; Go iterates its map in
+no particular order — the driver uses the order given. -/
+def postMap (da : Bool) (ps : Path) (params : List (String × String × Ty)) (outs : Path) :
+    List (String × J) → FS → List (String × J) × FS
+  | [], fs => ([], fs)
+  | (k, x) :: xs, fs =>
+    let r := processStructOuts da ps params x (outs ++ [k]) fs
+    let rs := postMap da ps params outs xs r.2
+    ((k, r.1) :: rs.1, rs.2)
+
+def handle (op : String) (args : List String) : Option String :=
+  match op, args with
+  | "run", [mode, da, ps, outs, params, value, fs] => do
+    let da ← (match da with
+      | "g" => some Gen.postProcessDimAware | "t" => some true | "f" => some false | _ => none)
+    let ps := pathOf (← hexStr ps)
+    let outs := pathOf (← hexStr outs)
+    let params ← runP pParams params
+    let v ← runP pJ value
+    let fs ← runP pFS fs
+    let r ← (match mode, params, v with
+      | "p", [(id, on, ty)], v => some (moveOut da ps ty id on v outs fs)
+      | "o", params, v => some (processStructOuts da ps params v outs fs)
+      | "a", params, .arr xs =>
+        let r := postArray da ps params outs 0 xs fs
+        some (J.arr r.1, r.2)
+      | "m", params, .obj kvs =>
+        let r := postMap da ps params outs kvs fs
+        some (J.obj r.1, r.2)
+      | _, _, _ => none)
+    pure (strHex (renderJ r.1) ++ "\t" ++ renderFS r.2)
+  | "parse", [value] => do
+    -- round trip of the token-level writer: emit, parse back, render again
+    let v ← runP pJ value
+    match parse (emit v) with
+    | some v' => pure ("some " ++ strHex (renderJ v'))
+    | none => pure "none"
+  | "dimaware", [] => pure (boolStr Gen.postProcessDimAware)
+  | "nodup", [members] => do
+    -- the compile-time duplicate-output-name check on one member list
+    let ms ← runP pParams members
+    pure (boolStr (noDupNames ms []))
+  | _, _ => none
 
 end Driver.C13
